@@ -330,6 +330,8 @@ class World:
                     if gotv != wantv:
                         fails.append(Failure(tg.get("vertices", tg["loops"]), "vertex cycles differ (segmentation)", where=what, reg=reg, expected=wantv, got=gotv))
         fails.extend(self.compare_moments(obj, reg, word, what=what, tags=tg, exact=exact))
+        if (exact is None or exact) and self.exact_mode(word):
+            fails.extend(self.exact_vertices(obj, word, what=what, tag=tg.get("type", "C13")))
         return fails
 
     def exact_mode(self, word=()):
@@ -364,6 +366,31 @@ class World:
                 tol = 1e-9 if quad_exact else 2e-3
                 if not abs(float(got) - float(exp)) <= tol * scale:
                     fails.append(Failure(tg["moment"], "moment differs", where=what, reg=reg, ab=(a, b), expected=float(exp), got=float(got), tol=tol * scale))
+        return fails
+
+    def exact_vertices(self, obj, word=(), *, what="object", tag="C13"):
+        """C13: with rational input every control point is the exact rational image of a
+        grid point, stored as int/Fraction with int numerator and denominator"""
+        import fractions
+        fails = []
+        T = frame_affine(word) if word else None
+        look = self.lookup(word)
+        for jordan in obj.jordans:
+            for seg in jordan.segments:
+                for p in seg.ctrlpoints:
+                    for c in (p[0], p[1]):
+                        okt = isinstance(c, int) or (isinstance(c, fractions.Fraction) and isinstance(c.numerator, int) and isinstance(c.denominator, int))
+                        if not okt:
+                            fails.append(Failure(tag, "coordinate is not an exact rational", where=what, got=repr(c)))
+                            return fails
+                    g = look(p)
+                    if g is None:
+                        continue
+                    ex = self.real.img(g[0], g[1], T)
+                    if p[0] != ex[0] or p[1] != ex[1]:
+                        if max(ex[0].denominator, ex[1].denominator) <= 10**9:
+                            fails.append(Failure(tag, "vertex is not the exact rational point", where=what, grid=g, expected=ex, got=(p[0], p[1])))
+                            return fails
         return fails
 
     def abs_moment(self, a, b, T):
